@@ -220,7 +220,21 @@ class _ApplyOps(_ShapeOps):
             recv = self.ev.eval(node.func.value, env)
             if recv in self.sc.get("dicts", {}):
                 return ("view", node.func.attr, recv)
+        if func in ("list", "dict") and not args and not kwargs and not node.args and not node.keywords:
+            return (func, ())
         return super().call(func, args, kwargs, node, env)
+
+    def store(self, target, value, env, ev):
+        if isinstance(target, ast.Subscript) and isinstance(target.value, ast.Name):
+            held = env.get(target.value.id)
+            if isinstance(held, tuple) and held[:1] == ("dict",):
+                key = ev.eval(target.slice, env)
+                pairs = [(k, v) for (k, v) in held[1] if k != key or key is UNKNOWN]
+                env[target.value.id] = ("dict", tuple(pairs) + ((key, value),))
+                return
+        hook = getattr(super(), "store", None)
+        if hook:
+            hook(target, value, env, ev)
 
     def _elements(self, v):
         if v in self.sc.get("items", {}):
@@ -260,6 +274,10 @@ class _ApplyOps(_ShapeOps):
             return ("dict", tuple(out)) if isinstance(e, ast.DictComp) else ("list", tuple(out))
         if isinstance(e, ast.Starred):
             return ("*", ev.eval(e.value, env))
+        if isinstance(e, ast.List) and not any(isinstance(x, ast.Starred) for x in e.elts):
+            return ("list", tuple(ev.eval(x, env) for x in e.elts))
+        if isinstance(e, ast.Dict) and all(k is not None for k in e.keys):
+            return ("dict", tuple((ev.eval(k, env), ev.eval(v, env)) for k, v in zip(e.keys, e.values)))
         return UNKNOWN
 
     def visit(self, node, env, ev):
@@ -273,6 +291,14 @@ class _ApplyOps(_ShapeOps):
                 vals[id(node.ast)] = "RESULT"
                 env["@callvals"] = vals
                 return
+            # a local list that is filled step by step (explicit loop instead of a comprehension);
+            # ``L.append(x)`` is a statement of its own: evaluated here, once
+            if isinstance(f, ast.Attribute) and isinstance(f.value, ast.Name) and f.attr == "append" \
+                    and len(node.ast.args) == 1 and not node.ast.keywords:
+                held = env.get(f.value.id)
+                if isinstance(held, tuple) and held[:1] == ("list",):
+                    env[f.value.id] = ("list", held[1] + (ev.eval(node.ast.args[0], env),))
+                    return
         super().visit(node, env, ev)
 
 
